@@ -122,6 +122,21 @@ static RunResult run_one(const Plan &plan, bool want_choices)
     r.status = s->status;
     if (want_choices)
         r.choices.assign(s->choices, s->choices + std::min<uint32_t>(s->nchoices, sim::MAX_CHOICES));
+    if (!r.v.ok && r.v.cls == "crash") {
+        // keep the crash reporter's backtrace with the verdict
+        std::ifstream f(g_rundir + "/stderr.txt");
+        std::string line, bt;
+        bool on = false;
+        int n = 0;
+        while (std::getline(f, line)) {
+            if (line.find("=== fatal signal") != std::string::npos)
+                on = true;
+            if (on && n++ < 14)
+                bt += line.substr(0, 160) + " | ";
+        }
+        if (!bt.empty())
+            r.v.msg += "; " + bt;
+    }
     if (!r.v.ok && getenv("TSIM_DUMP_STDERR")) {
         std::ifstream f(g_rundir + "/stderr.txt");
         std::string line;
@@ -331,6 +346,15 @@ static int cmd_serve()
 
 int main(int argc, char **argv)
 {
+#ifndef __SANITIZE_ADDRESS__
+    // glibc fills freed (and fresh) memory with a byte pattern: a use after free inside an
+    // uninstrumented library (Qt) then misbehaves the same way in every process, instead of
+    // depending on what the heap happens to hold
+    if (!getenv("MALLOC_PERTURB_")) {
+        setenv("MALLOC_PERTURB_", "165", 1);
+        execv("/proc/self/exe", argv);
+    }
+#endif
     sim::init_env();
     if (argc < 2) {
         fprintf(stderr, "usage: tsim batch|serve|gen ...\n");
